@@ -471,7 +471,7 @@ theorem refStep_dec (ws : Bool) (rv : List (Char × List Char)) (ds X : List Cha
     exact this
   have hdrop : ('#' :: (ds ++ ';' :: X)).drop (ds.length + 2) = X := by
     have := drop_length_append (ds ++ [';']) X
-    simpa using this
+    simp at this ⊢
   rw [RefStep, e, scan_amp, if_pos hlen, decodeRef_dec _ rv ds X h1 h2]
   by_cases hv : 128 ≤ numVal 10 ds
   · left
@@ -518,7 +518,7 @@ theorem refStep_hex (ws : Bool) (rv : List (Char × List Char)) (ds X : List Cha
     exact this
   have hdrop : ('#' :: 'x' :: (ds ++ ';' :: X)).drop (ds.length + 3) = X := by
     have := drop_length_append (ds ++ [';']) X
-    simpa using this
+    simp at this ⊢
   rw [RefStep, e, scan_amp, if_pos hlen, decodeRef_hex _ rv ds X h1 h2]
   by_cases hv : 10000 ≤ numVal 16 ds
   · left
@@ -567,7 +567,7 @@ theorem refStep_named (ws : Bool) (rv : List (Char × List Char)) (nm X : List C
     rw [hpass]; simp [XUnit.chars]
   have hdrop : (nm ++ ';' :: X).drop (nm.length + 1) = X := by
     have := drop_length_append (nm ++ [';']) X
-    simpa using this
+    simp at this ⊢
   rw [RefStep, e, scan_amp]
   by_cases hlen : 3 ≤ (nm ++ ';' :: X).length
   · rw [if_pos hlen]
@@ -729,8 +729,7 @@ theorem step_rev (ws : Bool) (rv : List (Char × List Char)) (hrv : RevOk rv) (u
             | nil => exact absurd rfl hrne
             | cons a b => simpa [List.getLast?_cons_cons] using r1
           rcases hbody with hb | hb
-          · simp only [Bool.and_eq_true, Bool.not_eq_true', List.isEmpty_eq_false_iff, List.all_eq_true,
-              beq_iff_eq] at hb
+          · simp only [Bool.not_eq_true', List.isEmpty_eq_false_iff, List.all_eq_true] at hb
             obtain ⟨⟨r2, r3⟩, r4⟩ := hb
             refine ⟨.named rest.dropLast, ?_, ?_, ?_, fun c h => by cases h⟩
             · rw [hs, ← hf]
@@ -1433,7 +1432,7 @@ theorem attr_token (v : List Char) (hv : WfAttrVal v) :
       have hlen : ¬ (('"' :: (flat us ++ ['"'])).length < 2) := by simp
       unfold attrOut
       rw [hg, hd]
-      simp only [decide_eq_true_eq, hlen, List.head?_cons, bne_self_eq_false, Bool.or_self, decide_false,
+      simp only [hlen, List.head?_cons, bne_self_eq_false, Bool.or_self, decide_false,
         Bool.false_eq_true, if_false]
     obtain ⟨us', e1, e2, e3⟩ := scan_attr us hok
     rw [h1, e1]
@@ -1494,7 +1493,7 @@ theorem escCData_length (t : List Char) :
         subst this
         simp [ih]; omega
       · next h1 h2 =>
-        simp [ih, h1, h2]; omega
+        simp [ih]; omega
 
 /-- CDATA → text conversion keeps exactly the characters, yields well-formed character data, and the text is
 not longer than the section `<![CDATA[`…`]]>` (12 bytes of delimiters) -/
@@ -2045,6 +2044,70 @@ theorem text_repl_equiv (d : List Char) (hd : WfText d) (K p ps : Bool) (E : Lis
   obtain ⟨us', e1, e2, e3, _⟩ := scan_text us hok
   rw [e1, decodeText_flat us' e2, decodeText_flat us hok]
   exact canon_sim K e3 E p ps
+
+
+/-! ## H. element nesting -/
+
+theorem nest_emitText (st : List (List Char)) (d : List Char) (k : List XTok) :
+    nest st (emitText d k) = nest st k := by
+  unfold emitText
+  split
+  · rfl
+  · cases st <;> simp [nest]
+
+theorem nest_aux (o : XmlOpts) (n : Nat) : ∀ ts : List XTok, ts.length ≤ n → ∀ (om : Bool) (st : List (List Char)),
+    nest st ts = true → nest st (emitGo o om 0 ts) = true := by
+  induction n with
+  | zero =>
+    intro ts hl om st h
+    have : ts = [] := List.length_eq_zero_iff.mp (by omega)
+    subst this; simpa [emitGo] using h
+  | succ n ih =>
+    intro ts hl om st h
+    cases ts with
+    | nil => simpa [emitGo] using h
+    | cons t r =>
+      simp only [List.length_cons] at hl
+      have hlr : r.length ≤ n := by omega
+      cases t with
+      | startTag nm => simp only [emitGo, nest] at h ⊢; exact ih r hlr _ _ h
+      | endTag d nm =>
+        cases st with
+        | nil => simp [nest] at h
+        | cons a st' =>
+          simp only [emitGo, nest, Bool.and_eq_true] at h ⊢
+          exact ⟨h.1, ih r hlr _ _ h.2⟩
+      | attr nm v => cases st <;> (simp only [emitGo, nest] at h ⊢; exact ih r hlr _ _ h)
+      | startTagPI nm => cases st <;> (simp only [emitGo, nest] at h ⊢; exact ih r hlr _ _ h)
+      | startTagClosePI => cases st <;> (simp only [emitGo, nest] at h ⊢; exact ih r hlr _ _ h)
+      | doctype d => cases st <;> (simp only [emitGo, nest] at h ⊢; exact ih r hlr _ _ h)
+      | comment d => cases st <;> (simp only [emitGo, nest] at h ⊢; exact ih r hlr _ _ h)
+      | startTagCloseVoid =>
+        cases st with
+        | nil => simp [nest] at h
+        | cons a st' => simp only [emitGo, nest] at h ⊢; exact ih r hlr _ _ h
+      | startTagClose =>
+        rcases collapseSkip_cases r with hc | ⟨d, nm, r', rfl, hc⟩ | ⟨d, d2, nm, r', rfl, _, hc⟩
+        · cases st <;> (simp only [emitGo, hc, nest] at h ⊢; exact ih r hlr _ _ h)
+        · cases st with
+          | nil => simp [nest] at h
+          | cons a st' =>
+            simp only [emitGo, hc, nest, Bool.and_eq_true] at h ⊢
+            exact ih r' (by simp at hlr; omega) _ _ h.2
+        · cases st with
+          | nil => simp [nest] at h
+          | cons a st' =>
+            simp only [emitGo, hc, nest, Bool.and_eq_true] at h ⊢
+            exact ih r' (by simp at hlr; omega) _ _ h.2
+      | cdata data txt =>
+        by_cases hemp : txt.isEmpty = true
+        · cases st <;> (simp only [emitGo, hemp, if_true, nest] at h ⊢; exact ih r hlr _ _ h)
+        · cases he : escapeCDATAVal txt <;> cases st <;>
+            (simp only [emitGo, hemp, he, Bool.false_eq_true, if_false, nest] at h ⊢; exact ih r hlr _ _ h)
+      | text d =>
+        have h' : nest st r = true := by cases st <;> simpa [nest] using h
+        simp only [emitGo, nest_emitText]
+        exact ih r hlr _ _ h'
 
 
 end Verif.Proofs.Xml
